@@ -166,12 +166,16 @@ impl Ctx {
             }
         };
         // the starting point: the latest version as the store has it
-        let start_latest = {
-            let server = self.server.as_ref().unwrap();
-            let mut txn = server.txn(cu).expect("txn");
-            let l = txn.get_client().expect("get_client").map(|c| c.latest_version_id).unwrap_or(Uuid::nil());
-            drop(txn);
-            l
+        let start_latest = match self.accepted.get(&c).and_then(|v| v.last()) {
+            // (from the bookkeeping when there is one: the store may be locked by another connection right now)
+            Some(x) => x.0,
+            None => {
+                let server = self.server.as_ref().unwrap();
+                let mut txn = server.txn(cu).expect("txn");
+                let l = txn.get_client().expect("get_client").map(|c| c.latest_version_id).unwrap_or(Uuid::nil());
+                drop(txn);
+                l
+            }
         };
         let extra: Vec<Server> = if self.backend == Backend::Sqlite { (0..nw + 2).map(|_| mk(self)).collect() } else { vec![] };
         let main = self.server.as_ref().unwrap();
